@@ -245,6 +245,40 @@ u_big(uint64_t idx, void *arg)
     vh_sig(0x08100000ull ^ idx);
 }
 
+/* every sequence number once per entry point on the serial link: the header checksum (and with it the payload
+ * checksum word it covers) takes every 16-bit value about once - 0x0000, 0xffff, values that need SLIP escaping,
+ * values equal to other header fields */
+static void
+u_seqsweep(uint64_t idx, void *arg)
+{
+    (void)arg;
+    vh_rng rg;
+    vh_unit_rng(&rg, "seqsweep", idx);
+    const int e = (int)(idx % NEMIT), mem16 = (int)((idx / NEMIT) & 1);
+    const unsigned part = 0, nparts = 1;
+    const uint32_t addr = (uint32_t)vh_rand(&rg);
+    const size_t n = (e == E_ACK_EMPTY || e >= E_CODE1) ? 0 : 1 + (size_t)vh_below(&rg, 6);
+    const uint32_t arg32 = (uint32_t)vh_rand(&rg);
+    fill_payload(&rg, 16);
+    uint64_t hits = 0;
+    for (unsigned sq = part; sq < 65536; sq += nparts) {
+        if ((sq & 63) == part % 64 || sq < nparts) {
+            vh_arena_reset();
+            rp_setup(&A, 1, mem16, 256);
+            rp_setup(&B, 1, mem16, 400);
+        }
+        VH_CASE4(idx, sq, e, n);
+        one_emit(e, 1, mem16, (uint16_t)sq, addr, n, (sq & 1) ? RT_READ_REQ : RT_WRITE_REQ, arg32, &rg);
+        /* raw[] holds the reference image of this emission */
+        if (raw[12] == 0 && raw[13] == 0)
+            hits++;
+    }
+    if (hits)
+        VH_COUNTN("emission whose header checksum is 0000", hits);
+    VH_COUNT("sequence-number sweep of an entry point");
+    vh_sig(0x08300000ull ^ idx);
+}
+
 /* payloads of 2^16 octets and more, and of 2^16 words and more */
 static void
 u_huge(uint64_t idx, void *arg)
@@ -279,6 +313,10 @@ harness_run(void)
     for (uint64_t i = 0; i < 32; i++)
         if (vh_tier || (i >> 2) % 8 == 2 || (i >> 2) % 8 == 6 || i % 5 == 0)
             vh_unit("huge", i, u_huge, NULL);
+    for (uint64_t i = 0; i < 2u * NEMIT; i++)
+        vh_unit("seqsweep", i, u_seqsweep, NULL);
+    vh_require("sequence-number sweep of an entry point");
+    vh_require("emission whose header checksum is 0000");
     vh_require("emission with 65534 or more payload octets");
     for (uint64_t i = 0; i < (vh_tier ? 24000u : 160u); i++)
         vh_unit("emit", i, u_emit, NULL);
